@@ -32,7 +32,7 @@ Definition Inv_loc (s : state) : Prop := loc_ok (uidcol s) (loc s).
 Definition Inv (s : state) : Prop := Inv_shape s /\ Inv_uid s /\ Inv_names s /\ Inv_loc s.
 
 (* ------------------------------------------------------------------ guards *)
-(* reason codes: 0 accepted; 1 locator index beyond the current count (the only guard left: the library pads the
+(* reason codes: 0 accepted; 9 arguments for which the library itself is undefined; 1 locator index beyond the current count (the only guard left: the library pads the
    role list with uid 0, finding setLocatorByUID:index-beyond-count) *)
 Definition ok_loc1 (u : Z) (t : loctype) (k : nat) (s : state) : Z :=
   match zidx u (uidmax s) with
@@ -86,6 +86,8 @@ Definition why_not (s : state) (o : op) : Z :=
   | AddColsVVD tabs _ t k _ => match concat tabs with [] => 0%Z | _ => add_ok t k s end
   | SetColumnName tab p t k _ =>
       match ids_name s p true, tab with [], _ :: _ => add_ok t k s | _, _ => 0%Z end
+  (* code 9: outside the domain of the library (it writes sel[rank] without checking the rank) *)
+  | AddSelRanks ranks _ _ => if existsb (fun r => nech s <=? r) ranks then 9%Z else 0%Z
   | _ => 0%Z
   end.
 Definition accepted (s : state) (o : op) : Prop := why_not s o = 0%Z.
@@ -98,7 +100,8 @@ Fixpoint script_why (s : state) (sc : list op) : Z :=
 Definition why_not_cmd (g : gstate) (c : cmd) : Z :=
   match c with
   | Do o => if fst g && is_sample_edit o then 0%Z else why_not (snd g) o
-  | SubGrid _ _ _ _ _ => if fst g then let (sc, s0) := cmd_script (snd g) c in script_why s0 sc else 0%Z
+  | SubGrid _ _ _ _ _ | Migrate _ _ _ _ _ _ _ =>
+      if fst g then let (sc, s0) := cmd_script (snd g) c in script_why s0 sc else 0%Z
   | _ => let (sc, s0) := cmd_script (snd g) c in script_why s0 sc
   end.
 Definition accepted_cmd (g : gstate) (c : cmd) : Prop := why_not_cmd g c = 0%Z.
@@ -128,7 +131,7 @@ Definition count_true (l : list bool) : nat := length (filter (fun b => b) l).
 (* bits: 1 names unique; 2 reported sizes = content; 4 uid <-> column mutually inverse; 8 designation by name
    agrees; 16 every role (type, rank) is held by exactly one existing column and no column has two roles;
    32 getLocatorNumber = number of columns of that type; 64 reported active count = number of active samples;
-   128 the same column is returned through every designator *)
+   128 the same column is returned through every designator; 1024 cells read through the selection = active samples *)
 Definition colloc_at (o : obs) (c : nat) : Z * Z := nth c (o_colloc o) ((-2)%Z, (-2)%Z).
 Definition chk_names (o : obs) : bool := nodup_names (o_names o).
 Definition chk_sizes (o : obs) : bool :=
@@ -166,15 +169,14 @@ Definition chk_cols (o : obs) : bool :=
   forallb (fun c => list_eqb val_eqb (nth c (o_cols_uid o) []) (nth c (o_cols o) [])
                     && ((fst (colloc_at o c) <? 0)%Z
                         || list_eqb val_eqb (nth c (o_cols_loc o) []) (nth c (o_cols o) []))) (seq 0 (o_ncol o)).
-(* the compressed column read through the selection has as many cells as there are active samples. bit 1024
-   (not part of check_obs: the library keeps a sample in getColumn*(useSel) when its selection value is exactly 1 but
-   counts it active when the value is not 0; the two agree on selections holding only 0, 1 or undefined values) *)
+(* the compressed column read through the selection has as many cells as there are active samples, the uncompressed
+   one as many as there are samples. bit 1024 *)
 Definition chk_selcols (o : obs) : bool :=
   forallb (fun col => length col =? o_nact o) (o_cols_selc o)
   && forallb (fun col => length col =? o_nech o) (o_cols_sel o).
 Definition check_obs (o : obs) : Z :=
   (bit (chk_names o) 1 + bit (chk_sizes o) 2 + bit (chk_uid o) 4 + bit (chk_byname o) 8 + bit (chk_roles o) 16
-   + bit (chk_rolecount o) 32 + bit (chk_active o) 64 + bit (chk_cols o) 128)%Z.
+   + bit (chk_rolecount o) 32 + bit (chk_active o) 64 + bit (chk_cols o) 128 + bit (chk_selcols o) 1024)%Z.
 
 (* post-condition of the role setters, on observations: every existing column designated by the call
    carries the requested role type afterwards (none for UNKNOWN). bit 256 *)
